@@ -255,6 +255,27 @@ func SBound(rng *rand.Rand) []*big.Int {
 		add(new(big.Int).AndNot(L, mask))
 		add(new(big.Int).Or(L, mask))
 	}
+	// mixed-direction values for a word-wise (or byte-wise) comparison against
+	// L: the part above a boundary is larger than L's while the part below is
+	// smaller (S > L), and the mirror image (S < L)
+	for _, off := range []uint{32, 64, 96, 128, 160, 192, 224, 248} {
+		m := new(big.Int).Lsh(One, off)
+		hi := new(big.Int).Rsh(L, off)
+		lo := new(big.Int).Mod(L, m)
+		up := new(big.Int).Lsh(new(big.Int).Add(hi, One), off)
+		add(up)
+		if lo.Sign() > 0 {
+			add(new(big.Int).Add(up, RandBelow(rng, lo)))
+			add(new(big.Int).Add(up, new(big.Int).Sub(lo, One)))
+		}
+		// only the word just above the boundary differs (+1 .. +3), everything below smaller
+		add(new(big.Int).Add(new(big.Int).Lsh(new(big.Int).Add(hi, big.NewInt(int64(1+rng.Intn(3)))), off), RandBelow(rng, new(big.Int).Add(lo, One))))
+		if hi.Sign() > 0 {
+			dn := new(big.Int).Lsh(new(big.Int).Sub(hi, One), off)
+			add(new(big.Int).Add(dn, new(big.Int).Sub(m, One)))
+			add(new(big.Int).Add(dn, RandBelow(rng, m)))
+		}
+	}
 	// top-byte classes with random lower bytes
 	for _, tb := range []byte{0x00, 0x01, 0x0f, 0x10, 0x11, 0x14, 0x1f, 0x20, 0x30, 0x40, 0x7f, 0x80, 0x90, 0xe0, 0xf0, 0xff} {
 		b := RandBytes(rng, 32)
